@@ -79,6 +79,58 @@ def build(cfg):
     return binp
 
 
+_built_wire = {}
+
+
+def build_wire(cfg):
+    """Build only the thin wire-level harness (survives API changes of the public structs)."""
+    if cfg in _built_wire:
+        return _built_wire[cfg]
+    feats = [f for f in CONFIGS[cfg] if f != "arbitrary"]
+    tdir = os.path.join(HARNESS, "target", cfg)
+    env = dict(os.environ, CARGO_NET_OFFLINE="true", CARGO_TARGET_DIR=tdir)
+    env.pop("RUSTFLAGS", None)
+    cmd = ["cargo", "build", "--offline", "--quiet", "--bin", "ctv-wire"]
+    if feats:
+        cmd += ["--features", ",".join(feats)]
+    manifest = os.path.join(HARNESS, "Cargo.toml") if REPO == "/repo" else _scratch_manifest(REPO)
+    r = sh(cmd + ["--manifest-path", manifest], env=env, cwd=HARNESS)
+    if r.returncode != 0:
+        raise ToolError("wire harness build failed for %s:\n%s" % (cfg, r.stdout[-3000:]))
+    binp = os.path.join(tdir, "debug", "ctv-wire")
+    _built_wire[cfg] = binp
+    return binp
+
+
+def replay_wire(cfg, vecpath, run, props=None):
+    binp = build_wire(cfg)
+    outpath = os.path.join(WORK, "tlc", run + ".wire.out")
+    inpath = vecpath
+    if props is not None:
+        inpath = vecpath + ".pw"
+        with open(vecpath) as f, open(inpath, "w") as g:
+            for line in f:
+                v = json.loads(line)
+                v["props"] = props
+                g.write(json.dumps(v, separators=(",", ":")) + "\n")
+    r = sh([binp, "replay", inpath, outpath])
+    recs, summary = [], None
+    if os.path.exists(outpath):
+        for line in open(outpath):
+            try:
+                o = json.loads(line)
+            except ValueError:
+                continue
+            if o.get("summary"):
+                summary = o
+            else:
+                recs.append(o)
+    if summary is None:
+        summary = {"summary": True, "aborted": True, "rc": r.returncode, "stderr": r.stdout[-1500:]}
+    log("wire replay %s[%s]: n=%s compared=%s mismatched=%s" % (run, cfg, summary.get("n"), summary.get("compared"), summary.get("mismatched")))
+    return summary, recs
+
+
 def _scratch_manifest(repo):
     """A copy of the harness manifest whose path dependency points at a scratch repository."""
     d = os.path.join(WORK, "scratch-harness")
